@@ -454,7 +454,7 @@ def rule_r12(ctx):
     slash = L.lit(b"/")
     any1 = L.chars(FULL)
     bad = {
-        "trailing-slash": L.cat(any1, L.sigma_star(), slash),
+        "trailing-slash": L.cat(L.sigma_star(), slash),  # '/' alone included: SCRIPT_NAME '/' + PATH_INFO '/x' is not the request path '/x'; the root is '' 
         "no-leading-slash": L.cat(L.chars(FULL & ~mask_of(b"/")), L.sigma_star()),
         "double-leading-slash": L.cat(slash, slash, L.sigma_star()),
     }
